@@ -232,3 +232,27 @@ PROPS['C16'] = dict(
                 'at wavelength index j+jmin of the SED just read, with no index out of range; object j is sorted to the parameter-table order and written exactly once to file number j+jmin+1, '
                 'and that name is entered in row j+jmin of the returned table (other rows untouched). That these per-iteration facts compose to "exactly one file per in-window wavelength, '
                 'independent of chunking" is the range-tiling argument of T-LOOP-EVENT. E2: EXHAUSTIVE chunk sizes x windows for n_wav <= 5/8 through real files, plus the cube slice.')
+
+# ---- convolve_model_dir (both package formats) under contract ------------------------------------
+CV1, CV2 = 'sedfitter.convolve.convolve._convolve_model_dir_1', 'sedfitter.convolve.convolve._convolve_model_dir_2'
+A_CONV = ['assumed: parfile.read / load_parameter_table / glob / os / ConvolvedFluxes.write (package directory and FITS I/O); SED.read and SEDCube.read are used through their own (proved) contracts, '
+          'their domain conditions (positive, strictly monotone spectral axis) are assumptions on the package data',
+          'A-REAL reading of np.testing.assert_array_almost_equal_nulp(x, y, 100): no exception means the two grids are equal',
+          'two filters stand for any number of filters (the filter loops are unrolled on a list of two symbolic filters)',
+          'every SED file of a per-file package has the same number of apertures as the first one (the output arrays are sized from it); wavelength grids may differ between files']
+PROPS['C07']['e1'] = [CV1, CV2, CFX + 'sort_to_match', CUBEN + 'SEDCube.get_sed', CUBEN + 'BaseCube.read', SEDC + 'read']
+PROPS['C07']['assumptions'] = COMMON + [T_LOOP, T_EVENT, D_ARGSORT, D_FITS, 'np.char.strip = a function of the name'] + A_CONV + [
+    'that a permutation of unique names never raises "Sorting failed", the FITS writers, the memmap path and the equality of the two formats end-to-end are decided by the bounded run']
+PROPS['C07']['explanation'] = ('E1: _convolve_model_dir_1 (per-file): for the SED file at ANY position im and every filter i, row im of output i gets that SED\'s name and, per aperture, flux = sum_k F[a,k] R_i[k], '
+                               'error = sqrt(sum_k (E[a,k] R_i[k])^2) with R_i = filter i re-binned to the frequencies of THAT SED whatever grids the earlier files had (ghost provenance of every re-binned filter; '
+                               'the remembered grid is an invariant), other rows untouched; every output is then sorted to the parameter-table order (sort_to_match: row integrity) and written once to the file '
+                               'named after its filter. _convolve_model_dir_2 (cube): flux[m,a] = sum_k val[m,a,k] R_i[k], error from unc in quadrature, unit factors, names/apertures of the cube, the filter\'s '
+                               'central wavelength, refusal of a parameter table whose names differ. SEDCube.read / get_sed / SED.read as in C12. E2: packages x formats x memmap x mixed grids x permutations.')
+PROPS['C06']['e1'] = PROPS['C06']['e1'] + [CV1, CV2]
+PROPS['C06']['assumptions'] = PROPS['C06']['assumptions'] + [T_EVENT] + A_CONV
+PROPS['C06']['explanation'] = PROPS['C06']['explanation'].replace('NOT proved (bounded only): integrate_subset body, sum R_i = integral over the overlap, flat-spectrum and linearity corollaries, convolve_model_dir regions.',
+                                                                  'The convolve loops of both formats are proved to multiply each SED by the filter re-binned to THAT SED\'s frequencies and to add errors in quadrature '
+                                                                  '(see C07). NOT proved (bounded only): integrate_subset body, sum R_i = integral over the overlap, flat-spectrum and linearity corollaries.')
+PROPS['C08']['explanation'] = ('E2: planted (model, A_V, scale) recovered through convolve_model_dir -> fit -> write_parameters, both formats, 1/3 apertures, permuted tables, mixed wavelength grids. '
+                               'Every kernel it composes is proved elsewhere: C06/C07 (convolve loops, rebin), C01 (optimum), C02 (grid minimum), C04 (ranking), C09 (filter_table), C10 (fit loop); '
+                               'the end-to-end composition through files and text is bounded.')
